@@ -569,7 +569,9 @@ def judge(data, runs):
         except Exception:
             pass
     x["_skipped"] = sorted(skip)
-    for which in ("json", "stdin_json"):
+    for which in ("json", "stdin_json", "devstdin_json", "fifo_json"):
+        if which not in runs:
+            continue
         rc, out, _ = runs[which]
         if rc != 0:
             continue
@@ -589,6 +591,11 @@ def judge(data, runs):
                 fails.append("%s: %s is %r, the file says %r" % (which, k, got[k], x[k]))
     if runs["json"][0] == 0 and runs["stdin_json"][0] == 0 and runs["json"][1] != runs["stdin_json"][1]:
         fails.append("the same bytes on stdin give a different JSON report")
+    for which in ("devstdin_json", "fifo_json"):
+        if which in runs and runs["json"][0] == 0 and runs[which][0] == 0:
+            a, b = json.loads(runs["json"][1]), json.loads(runs[which][1])
+            if a != b:
+                fails.append("the same bytes through %s give a different JSON report" % ("/dev/stdin" if which == "devstdin_json" else "a named pipe"))
     et = expected_tab(x)
     for which in ("tab", "stdin_tab"):
         rc, out, _ = runs[which]
@@ -618,6 +625,10 @@ ARGS = {
     "term": (["--terminal", "torrent", "show", "--input", "t.torrent"], False),
     "stdin_json": (["torrent", "show", "--input", "-", "--json"], True),
     "stdin_tab": (["torrent", "show", "-"], True),
+    # the same bytes through a path that is not a regular file: standard input spelled /dev/stdin, and a named pipe
+    # (added after seeded change C07-14: a stat() before the read refused "empty" inputs, i.e. everything whose size is 0 to stat)
+    "devstdin_json": (["torrent", "show", "--input", "/dev/stdin", "--json"], True),
+    "fifo_json": (["torrent", "show", "--input", "t.fifo", "--json"], "fifo"),
 }
 
 
@@ -635,9 +646,47 @@ def run_binary(ctx, tmp, data):
     if tz is not None:
         env["TZ"] = tz
     for k, (argv, stdin) in ARGS.items():
+        if stdin == "fifo":
+            runs[k] = run_with_fifo(ctx, d, argv, data, env)
+            continue
         runs[k] = ctx.imdl(argv, cwd=d, stdin=data if stdin else b"", env=env, timeout=60)
     shutil.rmtree(d, ignore_errors=True)
     return runs
+
+
+def run_with_fifo(ctx, d, argv, data, env):
+    """the input is the named pipe d/t.fifo; a thread feeds it the bytes once the binary has opened it (and gives up when the
+    binary ends without ever opening it)"""
+    import threading, time as _t
+    path = os.path.join(d, "t.fifo")
+    if not os.path.exists(path):
+        os.mkfifo(path)
+    stop = threading.Event()
+
+    def feed():
+        fd = None
+        while not stop.is_set():
+            try:
+                fd = os.open(path, os.O_WRONLY | os.O_NONBLOCK); break
+            except OSError:
+                _t.sleep(0.003)
+        if fd is None:
+            return
+        try:
+            os.set_blocking(fd, True)
+            view = memoryview(data)
+            while view:
+                n = os.write(fd, view[:65536]); view = view[n:]
+        except OSError:
+            pass
+        finally:
+            os.close(fd)
+    th = threading.Thread(target=feed, daemon=True)
+    th.start()
+    try:
+        return ctx.imdl(argv, cwd=d, env=env, timeout=60)
+    finally:
+        stop.set(); th.join(5)
 
 
 def model_line(data, runs=None):
